@@ -95,7 +95,7 @@ def scenarios(draw):
     n = draw(st.integers(1, 8))
     ids = ['rec%d' % i for i in range(n)]
     pool = ['equal', 'equal', 'equal', 'different', 'player_raises', 'exit', 'hang', 'hang', 'late',
-            'hang_sigterm_ignored', 'dies_after_giveup']
+            'hang_sigterm_ignored', 'dies_after_giveup', 'bad_answer']
     behs = [draw(st.sampled_from(pool)) for _ in ids]
     faults = [i for i, b in enumerate(behs) if b in PF.PROCESS_FAULTS]
     for i in faults[3:]:
